@@ -95,11 +95,12 @@ def cfg_of_line(ev, idx):
     return None
 
 
-def validate_chunks(ctx, ev, name, chunk=4000, timeout=900):
-    """Trace validation in chunks (each starting with the configuration in force); returns
-    {global event index (0-based) -> mismatch record}. Rejection of a line is inconclusive: the trace
-    spec judges every line and never blocks."""
-    res = {}
+def validate_chunks(ctx, ev, name, chunk=4000, timeout=900, par=3):
+    """Trace validation in chunks (each starting with the configuration in force), a few TLC processes at a
+    time; returns {global event index (0-based) -> mismatch record}. Rejection of a line is inconclusive: the
+    trace spec judges every line and never blocks."""
+    from concurrent.futures import ThreadPoolExecutor
+    jobs = []
     i = 0
     k = 0
     while i < len(ev):
@@ -109,12 +110,20 @@ def validate_chunks(ctx, ev, name, chunk=4000, timeout=900):
         if part[0].get("ev") != "cfg":
             part = [{"ev": "cfg", "cfg": cfg_of_line(ev, i)}] + part
             off = i - 1
-        p = ctx.write_ndjson("%s_%d.ndjson" % (name, k), part)
-        tr = ctx.tlc_trace("HttpRouter_Trace", TRACE_CFG, p, timeout=timeout, deque=False)
-        if not tr.accepted:
-            ctx.inconclusive("trace spec HttpRouter_Trace stopped at line %d of %d (chunk %d):\n%s" % (tr.hwm + 1, tr.total, k, tr.out[-2500:]))
-        for ln, rec in mismatches(tr.out).items():
-            res[off + ln - 1] = rec
+        jobs.append((k, off, ctx.write_ndjson("%s_%d.ndjson" % (name, k), part)))
         i = j
         k += 1
+
+    def one(job):
+        k, off, p = job
+        tr = ctx.tlc_trace("HttpRouter_Trace", TRACE_CFG, p, timeout=timeout, deque=False)
+        return k, off, tr
+
+    res = {}
+    with ThreadPoolExecutor(max_workers=par) as ex:
+        for k, off, tr in ex.map(one, jobs):
+            if not tr.accepted:
+                ctx.inconclusive("trace spec HttpRouter_Trace stopped at line %d of %d (chunk %d):\n%s" % (tr.hwm + 1, tr.total, k, tr.out[-2500:]))
+            for ln, rec in mismatches(tr.out).items():
+                res[off + ln - 1] = rec
     return res
